@@ -232,6 +232,16 @@ def gen_case(run_seed: int, index: int, tier: str) -> dict:
             if rng.random() < 0.3:
                 case["ops"].append(["forward", _gen_call(rng, 0)])
         case["ops"].append(["forward", _gen_call(rng, 0)])
+        if rng.random() < 0.3:
+            # some stages are pipelines themselves (a SequentialModel nested in the pipeline); the inner pipeline may grow later
+            case["composite"] = {}
+            for j in range(rng.choice([1, 1, 2])):
+                nm = f"q{j}"
+                case["composite"][nm] = [f"{nm}{c}" for c in "abc"[: rng.choice([1, 2, 2, 3])]]
+                pos = rng.randrange(len(case["stages"]) + 1)
+                case["stages"].insert(pos, nm)
+                if rng.random() < 0.5:
+                    case["ops"].insert(rng.randrange(len(case["ops"])), ["inner_add", nm, f"{nm}x"])
     elif kind in ("deepjscc", "channelcode"):
         nfix = 4 if kind == "deepjscc" else 6
         extra = 0
@@ -285,6 +295,9 @@ def gen_case(run_seed: int, index: int, tier: str) -> dict:
             call = _gen_call(rng, 0)
             call["inputs"] = [[rng.randrange(-50, 50) for _ in range(case["shape"][0] * case["shape"][1])] for _ in range(n)]
             case["ops"].append(["forward", call])
+        if n >= 2 and not case["enc_mode"].startswith("alias") and rng.random() < 0.3:
+            # one user's encoder is replaced in the module list (a fine-tuned copy) before a forward
+            case["ops"].insert(rng.randrange(len(case["ops"])), ["replace_encoder", rng.randrange(n)])
     elif kind == "nested":
         # one ParallelModel object shared by several branches of an outer ParallelModel (weight sharing): a single outer
         # forward makes several forwards of the shared object overlap in time
@@ -367,8 +380,19 @@ def run_sequential_family(ctx: Ctx):
     tr = ctx.trace
     objs = {}
 
+    composite = {k: list(v) for k, v in (case.get("composite") or {}).items()}
+
+    def expand(nms):
+        out = []
+        for nm in nms:
+            out.extend(composite[nm] if nm in composite else [nm])
+        return out
+
     def stage(name):
-        if name not in objs:
+        if name not in objs and name in composite:
+            objs[name] = SequentialModel([RecModel(inner, tr) for inner in composite[name]])
+            ctx.res.probes["sequential.nested_pipeline_stage"] += 1
+        elif name not in objs:
             objs[name] = RecCallable(name, tr) if case.get("plain_stages") and name.startswith("s") and int(name[1:]) % 2 == 1 else RecModel(name, tr)
         else:
             ctx.res.probes["sequential.stage_object_reused"] += 1
@@ -406,12 +430,19 @@ def run_sequential_family(ctx: Ctx):
                 hist_before_forward = True
                 ctx.res.faults["history.remove"] += 1
                 ctx.log.add("op.remove", op[1])
+        elif op[0] == "inner_add":
+            if op[1] in composite and op[1] in objs:
+                objs[op[1]].add_step(RecModel(op[2], tr))  # the nested pipeline grows after it was placed in the outer one
+                composite[op[1]].append(op[2])
+                hist_before_forward = True
+                ctx.res.faults["history.nested_pipeline_grows"] += 1
+                ctx.log.add("op.inner_add", [op[1], op[2]])
         else:
             call = op[1]
             x0 = ("in", call["input"])
             out = model(x0, *call["args"], **call["kwargs"])
             ctx.log.add("op.forward", {"in": x0, "out": out})
-            check_chain(ctx, ctx.take_trace(), names, x0, call["args"], call["kwargs"], out, kind)
+            check_chain(ctx, ctx.take_trace(), expand(names), x0, call["args"], call["kwargs"], out, kind)
             if len(names) >= 2:
                 ctx.res.nontrivial.append(core.short_hash([kind, names, hist_before_forward, len(call["args"]), sorted(call["kwargs"])]))
             ctx.res.probes[f"{kind}.forward"] += 1
@@ -866,6 +897,15 @@ def run_mac(ctx: Ctx):
     ch = aff("channel", 8, RecChannel)
     model = MultipleAccessChannelModel(encoders=encs, decoders=decs, channel=ch, power_constraint=con, num_devices=n)
     for op in case["ops"]:
+        if op[0] == "replace_encoder":
+            j = op[1]
+            if j < len(model.encoders):
+                new_enc = aff(f"encR{j}", j + 3)
+                model.encoders[j] = new_enc
+                enc_of_user[j] = new_enc
+                ctx.res.faults["history.encoder_entry_replaced"] += 1
+                ctx.log.add("op.replace_encoder", j)
+            continue
         call = op[1]
         xs = [torch.tensor(v, dtype=torch.int64).reshape(shape) for v in call["inputs"]]
         if alias:
@@ -1023,8 +1063,10 @@ def shrink_candidates(case: dict):
     if case.get("users", 1) > 1:
         c = copy.deepcopy(case)
         c["users"] -= 1
+        c["ops"] = [o for o in c["ops"] if o[0] != "replace_encoder" or o[1] < c["users"]]
         for o in c["ops"]:
-            o[1]["inputs"] = o[1]["inputs"][: c["users"]]
+            if o[0] == "forward":
+                o[1]["inputs"] = o[1]["inputs"][: c["users"]]
         if c["enc_mode"] == "list_partial" and c["users"] < 3:
             pass
         else:
